@@ -3,7 +3,7 @@
 Monitor: reference-model monitor over query histories on live GameData handles + order-independence
 invariant (same multiset of queries on a fresh handle in another order gives identical answers).
 Every stored location carries a unique payload so an extract identifies the location that was read."""
-import os, shutil
+import itertools, os, shutil
 from ..core import digest
 from ..fmt import sqpack as sq
 
@@ -12,7 +12,9 @@ RULE = ("random installations (platform in win32/ps3/ps4/ps5/lys, base + random 
         ".index2 or both, 1..300 (occasionally 2000) entries spread over dat0..dat7, synonym bits set at random, unique payload per location); "
         "queries exists/find_offset/extract randomly interleaved on one handle over stored paths, case variants (incl. category / repository segment), near misses "
         "(same folder other file, same file other folder, stored in another repository / category / unknown category / no slash) and random absent paths, "
-        "then the same queries in another order on a fresh handle. Oracle: Python index model on hashes (zlib.crc32). "
+        "then the same queries in another order on a fresh handle; installation shapes with > 65 536 entries in one index, 70..95 index files on one handle and dat files "
+        "addressed beyond 4 GiB (sparse); every history of length <= 2 (thorough: <= 4) over a 9-letter alphabet of (operation, path) pairs that touch different "
+        "index files / stored vs absent / case variants, each on a fresh handle. Oracle: Python index model on hashes (zlib.crc32). "
         "non-trivial = query expected present or a near miss; distinct = digest of (installation, query kind, path)")
 ASSUMPTIONS = ["index / dat layouts as documented for SqPack (the library accepts the generated files)",
                "when a path names a repository that is not installed, both 'absent' and 'looked up in the base repository' are accepted (leniency)"]
@@ -22,8 +24,8 @@ CATS = list(sq.CATEGORIES)
 
 def plan(tier):
     if tier == "quick":
-        return [("debug", 8, dict(n=12, nq=150))]
-    return [("debug", 16, dict(n=180, nq=220)), ("release", 8, dict(n=60, nq=200)), ("asan", 4, dict(n=12, nq=120))]
+        return [("debug", 16, dict(n=8, nq=150, hist=2))]
+    return [("debug", 16, dict(n=180, nq=220, hist=4)), ("release", 8, dict(n=60, nq=200, hist=3)), ("asan", 4, dict(n=12, nq=120, hist=2))]
 
 
 SEG = "abcdefghijklmnopqrstuvwxyzABCDEFGHIJKLMNOPQRSTUVWXYZ0123456789_-"
@@ -239,8 +241,51 @@ def make_queries(rng, inst, nq):
     return qs
 
 
+def exhaustive_histories(ctx, rng, maxlen):
+    """every history of length <= maxlen over an alphabet of (operation, path) letters, each on a fresh handle: the paths are chosen so
+    that the letters differ in the state they touch (two different index files, a stored and an absent path of the same file, a case
+    variant, another repository), which is what a cache- or history-dependent answer would hinge on"""
+    root = ctx.path("game-hist")
+    inst = build_installation(ctx, rng, root, "normal")
+    try:
+        by_file = {}
+        for (p, exp, cat, chunk, kind) in inst.stored:
+            by_file.setdefault((exp, cat, chunk), []).append(p)
+        files = sorted(by_file)
+        if len(files) < 2:
+            return
+        fa, fb = files[0], files[-1]
+        pa, pb = by_file[fa][0], by_file[fb][0]
+        absent = pa.rsplit("/", 1)[0] + "/" + seg(rng) + ".none"
+        paths = [pa, pb, absent, variants(rng, pa)]
+        letters = [(op, p) for p in paths for op in ("exists", "extract")] + [("find_offset", pa)]
+        model = {p: expected(inst, p) for p in paths}
+        ikey = digest(sorted(inst.payload))
+        mine = [h for k, h in enumerate(h for L in range(1, maxlen + 1) for h in itertools.product(range(len(letters)), repeat=L)) if k % ctx.nshards == ctx.index]
+        for hist in mine:
+            r = ctx.call("gd.open", inst.platform, root)
+            if not r.ok:
+                return
+            h = r.value["handle"]
+            for pos, li in enumerate(hist):
+                op, path = letters[li]
+                rec = ctx.call("gd." + op, h, path, *(["-"] if op == "extract" else []), input_bytes=inst.bytes)
+                ctx.check_mon(rec, inst.bytes, residual=False, files=[root])
+                if rec.outcome not in ("ok", "none"):
+                    continue
+                ans = (rec.outcome, rec.value if op != "extract" else (rec.value or {}).get("hex"))
+                present, locs, ecls = model[path]
+                if pos == len(hist) - 1:
+                    ctx.case(digest(ikey, hist), True, ["history-exhaustive:len%d" % len(hist), "q:" + op], sample=dict(history=[letters[k] for k in hist], last_answer=str(ans)[:60]))
+                judge(ctx, inst, op, path, "history", ans, present, locs, root)
+            ctx.call("drop", h)
+    finally:
+        shutil.rmtree(root, ignore_errors=True)
+
+
 def shard(ctx):
     rng, P = ctx.rng, ctx.params
+    exhaustive_histories(ctx, rng, P.get("hist", 2))
     for i in range(P["n"]):
         root = ctx.path("game%d" % i)
         shape = "normal"
